@@ -55,11 +55,11 @@ theorem step_bit (c : Cfg) (hg : 0 < c.g) (s : State) (i : In) (a b : Nat)
       match coveringWrite c i a b with
       | some w => w.data.testBit b
       | none => (rd s.mem a).testBit b := by
-  simp only [step, rd_wrAll _ _ _ _ _ hd, ha, if_true, coveringWrite]
+  simp only [step, rd_wrAll _ _ _ _ hd, ha, if_true, coveringWrite]
   cases h : wrTo i.writes a with
   | none => simp [applyTo]
   | some w =>
-    simp only [applyTo, testBit_merge _ _ _ _ _ _ hg]
+    simp only [applyTo, mergeW, testBit_merge _ _ _ _ _ _ hg]
     by_cases hc : covers c.g c.n w.mask b = true <;> simp [hc]
 
 /-- history induction: every bit of every in-range row is what the latest covering write put there -/
